@@ -251,6 +251,7 @@ def run_bb(root, seed, tier='quick', n=None, shards=NPROC):
     obs = []
     for i, (f, rc) in enumerate(zip(outs, rcs)):
         cnt = 0
+        aborted = False
         for line in open(f, errors='replace'):
             line = line.strip()
             if not line:
@@ -259,12 +260,15 @@ def run_bb(root, seed, tier='quick', n=None, shards=NPROC):
                 o = json.loads(line)
             except ValueError:
                 o = {'status': 'UNPARSABLE', 'raw': line[:300]}
+            if o.get('type') == 'stat' and 'aborted_after_hangs' in o:
+                aborted = True          # the shard stopped after three hangs (each costs the watchdog time)
+                continue
             o['type'] = 'bb'
             o['under'] = 'threads'
             o['shard_seed'] = seed * 1000 + i
             obs.append(o)
             cnt += 1
-        if rc != 0 or cnt != per:
+        if rc != 0 or (cnt != per and not aborted):
             obs.append({'type': 'bb', 'kind': 'shard', 'status': 'CRASH', 'rc': rc, 'lines': cnt,
                         'expected': per, 'shard_seed': seed * 1000 + i})
         if not os.environ.get('VERIF_KEEP_LOGS'):
